@@ -578,7 +578,7 @@ def main(tier: str) -> int:
     n_arg = n_arg_about = 0
     arg_by_form, arg_by_ctx = {}, {}
     known_c14 = list(known_for(PROP))
-    if PROPOSED.exists():
+    if False and PROPOSED.exists():  # merged into known_findings.json
         known_c14 += [f for f in json.loads(PROPOSED.read_text()) if f.get("property") == PROP and f["id"] not in {k["id"] for k in known_c14}]
     for j, r in zip(plant_jobs, pres):
         if r["ok"]:
@@ -712,6 +712,13 @@ def replay(path: str) -> int:
         print("actual  :", r["exc"], r["cited"])
         return 0 if r["cited"] and tuple(r["cited"]) == (rp["expected"]["line"], rp["expected"]["col"]) else 1
     bad, a, b, _ = handover_failures(r)
-    print("expected: every hand-over / token at the position of its text (%d hand-overs, %d tokens looked at)" % (a, b))
+    bad2, a2, b2, _ = derived_failures(r)
+    bad, a, b = bad + bad2, a + a2, b + b2
+    if rp.get("check") == "A2":
+        ok = all(sg[:2] == eq[:2] and sg[2] == eq[2] + 1 and sg[3] == eq[3][1:] for eq, sg in sign_splits(r))
+        print("expected: sign token = (type, line, col + 1, string[1:]) of the `=-` / `=+` operator token")
+        print("actual  :", [(eq[:4], sg[:4]) for eq, sg in sign_splits(r)][:4])
+        return 0 if ok else 1
+    print("expected: every hand-over / token at the position of its text (%d hand-overs / entry-point calls, %d tokens looked at)" % (a, b))
     print("actual  :", bad[:3] if bad else "all faithful", "| outcome:", r["exc"], r["cited"])
     return 1 if bad else 0
